@@ -403,6 +403,50 @@ theorem end_to_end_properties (cfg : Cfg) (hq : ValidQ cfg) (hst : cfg.stations.
     · exact Or.inl h1
     · exact Or.inr ⟨st, hm, ho⟩
 
+/-
+  FULL STATEMENT (not proved): `end_to_end` for the full simulator model `Acn.Sim` (pilot matrix,
+  EVSEs, batteries, rates) with `StochasticNetwork` in place of `ChargingNetwork`, obtained through
+  a projection lemma like `Acn.C01.sim_body_core`.  `Acn.Sim` is built on `Core.occ` with
+  pre-assigned stations (the deterministic network), so this needs a `Sim` over `CoreG σ` /
+  `bodyGP` (sim-core); `sim_body_core` as it stands speaks about `EventCore.body` only.
+  PROVED instead: `fully_charged` no longer is an input.  The charging stage of every period is
+  modelled inside the loop as ANY function `led.charge t net ledger` of the period, of who is
+  plugged where, and of the ledger so far (any scheduler, any pilots, any battery law), and
+  `fully_charged` is read off the ledger (`led.full`); e.g. `energyLedger requested rate eps`:
+  delivered energy per session, full when `requested - delivered ≤ eps` (ev.py:100-112).
+-/
+open Acn.EventCore in
+theorem end_to_end_ledger_partial {L : Type} (led : Ledger L) (l0 : L) (cfg : Cfg) (hq : ValidQ cfg)
+    (hst : cfg.stations.Nodup) (early : Bool) (cs : Nat → Nat)
+    {sched apply : CoreG (Net × L) → Option EventCore.Err}
+    (hs : ∀ g, sched g = none) (ha : ∀ g, apply g = none) (n : Nat) :
+    ∃ g, runGP heapQ (stochasticNetL cs) (stochasticPostL led) cfg sched apply n
+        (initG heapQ cfg (net0 cfg early, l0)) = (g, none) ∧
+      g.core.iter = min n (EventCore.horizon cfg) ∧
+      Good g.net.1 g.core.eventHist ∧
+      g.core.eventHist.Pairwise (fun a b => a.keyLe b = true) ∧
+      (EventCore.horizon cfg ≤ n →
+        g.core.pending = [] ∧ g.core.resolve = false ∧
+        (∀ e ∈ g.core.eventHist, e.kind = .plugin →
+          ∃ u ∈ g.core.eventHist, u.kind = .unplug ∧ u.sess = e.sess) ∧
+        g.net.1.waiting = [] ∧ ∀ st, g.net.1.occ st = none) := by
+  obtain ⟨h0, g0⟩ := initG_inv (σ := Net × L) hq heapQ_ok (net0 cfg early, l0)
+  obtain ⟨g, hr, hI, hP⟩ := runGP_spec hq heapQ_ok (stochastic_noFailL cfg hq cs led) hs ha n 0
+    (initG heapQ cfg (net0 cfg early, l0)) h0 g0 (loopInv_init cfg hst early) (Nat.zero_le _)
+  have hgood : Good g.net.1 g.core.eventHist := ⟨hP.inv, hP.track⟩
+  refine ⟨g, hr, by simpa using hI.iter, hgood, hI.hist_sorted, fun hn => ?_⟩
+  rw [Nat.zero_add, Nat.min_eq_right hn] at hI
+  have hp : g.core.pending = [] := by
+    by_contra h
+    exact absurd ((pendingG_ne_nil_iff hq hI).1 h) (lt_irrefl _)
+  have hall := hist_complete_at_horizon hq hI
+  exact ⟨hp, hI.resolve, hall, all_gone_at_end hgood hall⟩
+
+/-- a concrete ledger: requests in ℚ, a constant 0.55 kWh per period for whoever is plugged in -/
+example : Ledger (Sess → Rat) :=
+  energyLedger (fun x => if x = "a" then (3 : Rat) / 10 else 60) (fun _ _ _ _ => (11 : Rat) / 20)
+    ((1 : Rat) / 1000)
+
 /-- the hypotheses are satisfiable: three overlapping sessions, all pre-assigned to the one station -/
 example : EventCore.ValidQ
     { stations := ["S0"], sessions := [⟨"a", "S0", 0, 4⟩, ⟨"b", "S0", 1, 3⟩, ⟨"c", "S0", 1, 4⟩],
